@@ -303,6 +303,50 @@ syn_req!(mixed, POST, AccessToken, { 1.0 => "/_syn/r0/mx/:p1", 1.1 => "/_syn/v3/
     b: String,
 });
 
+/// response declared with `#[response(status = ...)]`: the status the encoder writes is the
+/// declared one and the decoder accepts what the encoder wrote (same round trip as above)
+macro_rules! syn_resp_status {
+    ($m:ident, $status:ident, { $( $(#[$a:meta])* $f:ident : $t:ty ),* $(,)? }) => {
+        pub mod $m {
+            use super::*;
+            const METADATA: Metadata = metadata! {
+                method: GET, rate_limited: false, authentication: None,
+                history: { unstable => "/_syn/resp_status", }
+            };
+            #[request]
+            pub struct Request {}
+            #[response(status = $status)]
+            pub struct Response { $( $(#[$a])* pub $f: $t ),* }
+            fields!(Response, resp, { $($f: $t),* });
+            pub fn eval(v: &[FV], t: &mut Tally) -> Option<Fail> {
+                let r = build(v);
+                if let Ok(Ok(h)) = catch(|| r.clone().try_into_http_response::<Vec<u8>>()) {
+                    t.outcome("response-status", h.status().as_str());
+                    if h.status() != http::StatusCode::$status {
+                        return fail(
+                            "status-override-ignored",
+                            format!("declared {} but encoded {}", http::StatusCode::$status, h.status()),
+                        );
+                    }
+                }
+                rt_response(r, to_fv, t)
+            }
+        }
+    };
+}
+
+syn_resp_status!(resp_found, FOUND, {
+    #[ruma_api(header = LOCATION)] ho: Option<String>,
+});
+syn_resp_status!(resp_created, CREATED, {
+    #[ruma_api(header = LOCATION)] h: String,
+    b: String,
+});
+syn_resp_status!(resp_see_other, SEE_OTHER, {
+    #[ruma_api(header = LOCATION)] h: String,
+    #[serde(skip_serializing_if = "Option::is_none")] bo: Option<String>,
+});
+
 syn_resp!(resp_body, {
     b: String,
     #[serde(skip_serializing_if = "Option::is_none")] bo: Option<String>,
@@ -339,6 +383,9 @@ fn syn_endpoints() -> Vec<Ep> {
         resp_header::ep(),
         resp_raw::ep(),
         resp_newtype::ep(),
+        resp_found::ep(),
+        resp_created::ep(),
+        resp_see_other::ep(),
     ]
 }
 
